@@ -329,7 +329,7 @@ struct Acc {
   uint64_t checks[O_COUNT] = {0}, near[O_COUNT] = {0};
   double worst[O_COUNT] = {0};
   uint64_t regimes[6] = {0};
-  uint64_t cold_moving = 0;
+  uint64_t cold_moving = 0, reduced = 0;
   uint64_t unordered = 0, ties_skipped = 0, hllc_regions[3] = {0}, cont_waves = 0, sample_near_disc = 0;
   void note(int o, double ratio) {
     ++checks[o];
@@ -896,7 +896,21 @@ struct SideState {
   double r, p;
   bool gas() const { return r > 0. && p > 0.; }
 };
-typedef std::pair< double, double > VP;
+/// pair of normal velocities; cls 1 marks the vacuum generation specials at
+/// or just below the limit, for which the real exact solver iterates longest
+struct VP {
+  double first, second;
+  int cls;
+  bool operator<(const VP &o) const {
+    return first < o.first || (first == o.first && second < o.second);
+  }
+  bool operator==(const VP &o) const { return first == o.first && second == o.second; }
+};
+/// adiabatic indices for which the star pressure just below the vacuum limit is
+/// below the double range ((1e-9)^(2g/(g-1)) < DBL_MIN): there the Brent
+/// iteration of the code under test runs to its 1e4 iteration bail-out (a few
+/// ms per call), so those specials are enumerated with fewer orientations
+static bool expensive_gamma(double g) { return g < 1.07; }
 
 /// normal velocities of the two sides: multiples of the local sound speed,
 /// vacuum generation at and around the limit, vacuum fronts on the face
@@ -908,7 +922,7 @@ static std::vector< VP > velocity_pairs(const ExactRiemannSolver &S, double g, S
   std::vector< VP > v;
   for (double kL : ks)
     for (double kR : ks)
-      v.push_back({kL * unL, kR * unR});
+      v.push_back({kL * unL, kR * unR, 0});
   const double t = S._tdgm1;
   auto around = [](double x) {
     return std::vector< double >{x, std::nextafter(x, -INFINITY), std::nextafter(x, INFINITY)};
@@ -916,20 +930,21 @@ static std::vector< VP > velocity_pairs(const ExactRiemannSolver &S, double g, S
   if (L.gas() && !R.gas())
     for (double s : {-1., 1.})
       for (double x : around(s * t * aL))
-        v.push_back({x, 0.});
+        v.push_back({x, 0., 2});
   if (R.gas() && !L.gas())
     for (double s : {-1., 1.})
       for (double x : around(s * t * aR))
-        v.push_back({0., x});
+        v.push_back({0., x, 2});
   if (L.gas() && R.gas()) {
     const double lim = t * aL + t * aR;
     for (double fct : {1. - 1e-9, 1., 1. + 1e-9, 1.2}) {
       const double dv = lim * fct;
-      v.push_back({0., dv});
-      v.push_back({-0.5 * dv, 0.5 * dv});
-      v.push_back({-dv, 0.});
-      v.push_back({-t * aL, dv - t * aL}); // left front on the face
-      v.push_back({t * aR - dv, t * aR});  // right front on the face
+      const int cls = fct <= 1. ? 1 : 2;
+      v.push_back({0., dv, cls});
+      v.push_back({-0.5 * dv, 0.5 * dv, cls});
+      v.push_back({-dv, 0., cls});
+      v.push_back({-t * aL, dv - t * aL, cls}); // left front on the face
+      v.push_back({t * aR - dv, t * aR, cls});  // right front on the face
     }
   }
   std::sort(v.begin(), v.end());
@@ -964,6 +979,7 @@ static void merge(Acc &T, const Acc &a) {
   T.dups += a.dups;
   T.boost_ties_skipped += a.boost_ties_skipped;
   T.cold_moving += a.cold_moving;
+  T.reduced += a.reduced;
   T.ties_skipped += a.ties_skipped;
   T.cont_waves += a.cont_waves;
   T.sample_near_disc += a.sample_near_disc;
@@ -1117,8 +1133,18 @@ int main(int argc, char **argv) {
       const std::vector< VP > vps = velocity_pairs(*exs[it.ig], g, L, Rs, ks);
       for (const VP &vp : vps)
         for (int tc = 0; tc < 4; ++tc)
-          for (const Normal &N : nrm)
+          for (size_t in = 0; in < nrm.size(); ++in)
             for (double fv : {0., 1., -1.}) {
+              const Normal &N = nrm[in];
+              if (vp.cls == 1 && expensive_gamma(g)) {
+                // reduced orientation set (see expensive_gamma)
+                const bool keep = th ? (tc == 0 && (in == 0 || in == 6) && fv >= 0.)
+                                     : (tc == 0 && in == 0 && fv == 0.);
+                if (!keep) {
+                  ++acc.reduced;
+                  continue;
+                }
+              }
               c.n = N.n;
               c.uL = vp.first * N.n + ((tc & 1) ? Vs : 0.) * N.t;
               c.uR = vp.second * N.n + ((tc & 2) ? Vs : 0.) * N.t;
@@ -1164,6 +1190,10 @@ int main(int argc, char **argv) {
       for (const VP &vp : vps)
         for (int tc = 0; tc < 2; ++tc)
           for (int in : {0, 6}) {
+            if (vp.cls == 1 && expensive_gamma(g)) {
+              ++acc.reduced;
+              continue;
+            }
             const Normal &N = nrm[in];
             c.n = N.n;
             c.uL = vp.first * N.n + (tc ? Vs : 0.) * N.t;
@@ -1194,6 +1224,10 @@ int main(int argc, char **argv) {
         xis.erase(std::unique(xis.begin(), xis.end()), xis.end());
         for (double xi : xis)
           for (double wf : {1.3, -0.6}) {
+            if (vp.cls == 1 && expensive_gamma(g) && !(xi == 0. && wf > 0.)) {
+              ++acc.reduced;
+              continue;
+            }
             c.xi = xi;
             c.w = {wf * Vs, 0., 0.};
             check_sample_case(X, c);
@@ -1229,6 +1263,7 @@ int main(int argc, char **argv) {
   R.set("cases", (double)T.cases);
   R.set("aborts", (double)T.aborts);
   R.set("hllc_boost_checks_skipped_at_vacuum_limit_tie", (double)T.boost_ties_skipped);
+  R.set("orientation_variants_not_run_for_near_limit_specials_gamma_below_1.07", (double)T.reduced);
   if (family == "identical")
     R.set("identical_pressureless_moving_states_treated_as_vacuum", (double)T.cold_moving);
   R.set("hllc_wave_speeds_not_ordered_skipped", (double)T.unordered);
